@@ -20,8 +20,8 @@ import (
 //
 // where tau is a scalar and v is a vector.
 //
-// work must have length at least m if side == blas.Left and
-// at least n if side == blas.Right.
+// work must have length at least n if side == blas.Left and
+// at least m if side == blas.Right.
 //
 // Dlarf is an internal routine. It is exported for testing purposes.
 func (impl Implementation) Dlarf(side blas.Side, m, n int, v []float64, incv int, tau float64, c []float64, ldc int, work []float64) {
